@@ -14,7 +14,7 @@ ASSUMPTIONS = [
 
 PROPS = {}
 NOT_APPLICABLE = {}
-HOOK_COMMITS = []
+HOOK_COMMITS = ["cc451d6"]
 _UNITS = []
 
 
@@ -212,3 +212,45 @@ for f1 in (0, 1, 2):
         U("m.mput#f%d%d" % (f1, f2), src="units/map.c", harness="h_m_mput", replace=["hashmap_put"], logctx="STRUCTS",
           props=["C05", "C04"], contract_files=["contracts/map.contracts.h"], native=False, timeout=600, min_obligations=20,
           defines=["V_T=4", "V_F1=%d" % f1, "V_F2=%d" % f2], unwindset={"strlen.0": 4, "memcpy.0": 4})
+
+# =====================================================================================================
+# C09  per-module source registry
+# =====================================================================================================
+PROPS["C09"] = {"level": "proof", "level_text": "TODO", "level_note": "TODO", "not_decided": [], "explanation": "TODO"}
+for k in ("fd", "tmr", "sgn", "pid", "task", "thresh", "path"):
+    U("srccmp." + k, src="units/srccmp.c", harness="h_cmp_" + k, plain=True, logctx="CORE", props=["C09"], native=False,
+      contract_files=[], timeout=600, min_obligations=4, cbmc_extra=["--float-overflow-check", "--nan-check"] if False else [])
+U("srccmp.keywrap", src="units/srccmp.c", harness="h_key_wrap", plain=True, logctx="CORE", props=["C09"], native=False,
+  contract_files=[], timeout=600, min_obligations=3, unwind=10)
+
+# =====================================================================================================
+# core units
+# =====================================================================================================
+ABS = ["contracts/abs.contracts.h"]
+U("ctx.push_evt", src="units/ctx_unit.c", harness="h_push_evt", enforce="push_evt",
+  replace=["m_mem_unref", "m_queue_enqueue", "m_queue_len", "m_queue_new", "call_pubsub_cb"], logctx="CORE",
+  props=["C13", "C18", "C03", "C04"], contract_files=ABS + ["contracts/ctx.contracts.h"], native=False, timeout=600, min_obligations=30)
+PROPS["C13"] = {"level": "proof", "level_text": "TODO", "level_note": "TODO", "not_decided": [], "explanation": "TODO"}
+U("ps.call_pubsub_cb", src="units/ps_unit.c", harness="h_call_pubsub_cb", enforce="call_pubsub_cb",
+  replace=["m_mem_ref", "m_mem_unref", "m_queue_len", "m_queue_free", "m_stack_peek", "fs_notify", "fetch_ms", "v_on_evt", "v_become_evt"], logctx="CORE",
+  props=["C17", "C04", "C15", "C02"], contract_files=ABS + ["contracts/cb.contracts.h", "contracts/ps.contracts.h"], native=False, timeout=600, min_obligations=30)
+PROPS["C17"] = {"level": "proof", "level_text": "TODO", "level_note": "TODO", "not_decided": [], "explanation": "TODO"}
+EVTS = ABS + ["contracts/evts.contracts.h"]
+U("evts.become", src="units/evts_unit.c", harness="h_become", enforce="m_mod_become", replace=["m_ctx", "m_mod_is", "fetch_ms", "m_stack_push"], logctx="CORE",
+  props=["C17", "C18", "C14", "C01", "C04"], contract_files=EVTS, native=False, timeout=600, min_obligations=30)
+U("evts.unbecome", src="units/evts_unit.c", harness="h_unbecome", enforce="m_mod_unbecome", replace=["m_ctx", "m_mod_is", "fetch_ms", "m_stack_pop"], logctx="CORE",
+  props=["C17", "C18", "C14", "C01", "C04"], contract_files=EVTS, native=False, timeout=600, min_obligations=30)
+U("evts.stash", src="units/evts_unit.c", harness="h_stash", enforce="m_mod_stash", replace=["m_ctx", "m_mod_is", "fetch_ms", "m_mem_ref", "m_queue_enqueue"], logctx="CORE",
+  props=["C16", "C18", "C14", "C04"], contract_files=EVTS, native=False, timeout=600, min_obligations=30)
+U("evts.set_batch_size", src="units/evts_unit.c", harness="h_set_batch_size", enforce="m_mod_set_batch_size", replace=["m_ctx", "m_mod_is", "fetch_ms"], logctx="CORE",
+  props=["C13", "C18", "C14", "C04"], contract_files=EVTS, native=False, timeout=600, min_obligations=30)
+PROPS["C16"] = {"level": "proof", "level_text": "TODO", "level_note": "TODO", "not_decided": [], "explanation": "TODO"}
+PROPS["C18"] = {"level": "proof", "level_text": "TODO", "level_note": "TODO", "not_decided": [], "explanation": "TODO"}
+_UNSTASH_REPL = ["m_ctx", "m_mod_is", "fetch_ms", "m_mem_ref", "m_queue_enqueue", "m_queue_new", "m_queue_len", "m_queue_itr_new", "m_queue_itr_next",
+                 "m_queue_itr_get_data", "m_queue_itr_remove", "call_pubsub_cb"]
+# (a loop-contract version of this unit exists behind -DV_UNSTASH_LOOPCONTRACT; CBMC's symbolic execution does not finish on it
+#  within 300 s, so only the bounded stand-in is registered -- see DESIGN.md)
+U("evts.unstash_real", src="units/evts_real.c", harness="h_unstash_real", plain=True, logctx="CORE", bounded=True,
+  bound_note="real evts.c + real queue.c, every stash of <= K events (K=4 quick / 8 thorough), every n; loops unwound K+3 with unwinding assertions",
+  defines_quick=["V_KSTASH=4"], defines_thorough=["V_KSTASH=8"], unwind=8, unwind_thorough=12,
+  props=["C16", "C04"], contract_files=[], native=True, timeout=600, min_obligations=10)
